@@ -1,4 +1,9 @@
 import JadeModel.Proofs.SystemUniqueA
+import JadeModel.Proofs.SystemUniqueBStepA
+import JadeModel.Proofs.SystemUniqueBStepB
+import JadeModel.Proofs.SystemUniqueBStepC
+import JadeModel.Proofs.SystemUniqueBStepD
+import JadeModel.Proofs.SystemUniqueBStepE
 
 set_option linter.unusedSimpArgs false
 
@@ -6,42 +11,13 @@ set_option linter.unusedSimpArgs false
 
 namespace Jade.Sys
 
-/-- the role holder's copy no longer lists `j` as NOT_SUBMITTED, or `j` was handed out in this round -/
-def holderKnows (s : Sys) (j : JobId) : Prop :=
-  match holderSub s with
-  | some y => y.loc.st j ≠ .ns ∨ j ∈ y.pend
-  | none => False
-
-macro "frame_uqb" : tactic => `(tactic|
-  try simp only [HasRow, holderKnows, mem_newly_passEnd, hasRowF_move, hasRowF_snocProc, hasRowF_snocNode,
-    mustCancel_iff, nodeCancel_guard_iff,
-    freshHid_some_iff, holderPend, holderBidx, holderSub, Orphan, procs_setSub, procs_setNode, procs_setProc,
-    setSub_fields, setNode_fields, setProc_fields, holds_iff] at *)
-
-structure PlainB (s : Sys) : Prop where
-  /-- where the holder's copy is ahead of the status file, the difference is a cancellation of this round -/
-  locAhead : ∀ q a y, s.procs q = .sub a y → holds y.pc = true → ∀ j, y.loc.st j ≠ .ns →
-    s.disk.st j ≠ .ns ∨ j ∈ y.newly ∨ j ∈ y.toCancel ∨ j ∈ y.pass.map (·.job)
-  cancelDone : ∀ q a y, s.procs q = .sub a y → holds y.pc = true → ∀ j ∈ y.toCancel, y.loc.st j ≠ .ns
-  cancelNoBatch : ∀ q a y, s.procs q = .sub a y → holds y.pc = true → ∀ j ∈ y.toCancel,
-    ∀ B ∈ s.batches, j ∉ B.jobs
-  cancelNodup : ∀ q a y, s.procs q = .sub a y → holds y.pc = true → y.toCancel.Nodup
-  /-- a job with a row is no longer NOT_SUBMITTED on disk, or the role holder will write that -/
-  rowKnown : ∀ j, HasRow s j → s.disk.st j ≠ .ns ∨ holderKnows s j
-
-theorem plainB_init (sc : Scn) : PlainB (init sc) := by
-  refine ⟨?_, ?_, ?_, ?_, ?_⟩ <;> simp [init, HasRow, HasRowF]
-
-set_option maxHeartbeats 32000000 in
 theorem plainB_step {s s' : Sys} {op : Op} (hn : NodeInv s) (ha : PlainA s) (hi : PlainB s)
     (h : step s op = some s') (hf : op.risky = false) : PlainB s' := by
-  obtain ⟨⟨⟨r1, r2, r3, r4, r5⟩, l1, l2, l3, -, -, -, -⟩, n1, -, -, -, -, -, -, -⟩ := hn
-  obtain ⟨a1, a2, a3, a4, a5⟩ := ha
-  obtain ⟨b1, b2, b3, b4, b5⟩ := hi
-  cases op <;> (first | (cases hf; done) | skip) <;> step_cases h <;>
-    (refine ⟨?_, ?_, ?_, ?_, ?_⟩ <;> frame_uqb)
-  all_goals first
-    | proc_clause
-    | grind [SubP.load, persistStatus, find?_hid, cancelSetOk_iff, mustCancel_iff, List.nodup_cons]
+  have c_locAhead := plainB_step_a hn ha hi h hf
+  have c_cancelDone := plainB_step_b hn ha hi h hf
+  have c_cancelNoBatch := plainB_step_c hn ha hi h hf
+  have c_cancelNodup := plainB_step_d hn ha hi h hf
+  have c_rowKnown := plainB_step_e hn ha hi h hf
+  exact ⟨c_locAhead, c_cancelDone, c_cancelNoBatch, c_cancelNodup, c_rowKnown⟩
 
 end Jade.Sys
